@@ -872,6 +872,26 @@ def split_parallel_assignments(f):
       if isinstance(st, ast.Try):
         for hd in st.handlers:
           hd.body = block(hd.body)
+      # a, b, c = itertools.repeat(K, 3) / [K] * 3 / (K,) * 3 / chained a = b = c = K with a constant K
+      if isinstance(st, ast.Assign) and len(st.targets) == 1 and isinstance(st.targets[0], (ast.Tuple, ast.List)) \
+          and not any(isinstance(x, ast.Starred) for x in st.targets[0].elts):
+        k_, n_ = None, None
+        v_ = st.value
+        if isinstance(v_, ast.Call) and norm(v_.func) in ('itertools.repeat', 'repeat') and len(v_.args) == 2 and isinstance(v_.args[0], ast.Constant) \
+            and isinstance(v_.args[1], ast.Constant):
+          k_, n_ = v_.args[0], v_.args[1].value
+        elif isinstance(v_, ast.BinOp) and isinstance(v_.op, ast.Mult) and isinstance(v_.left, (ast.List, ast.Tuple)) and len(v_.left.elts) == 1 \
+            and isinstance(v_.left.elts[0], ast.Constant) and isinstance(v_.right, ast.Constant):
+          k_, n_ = v_.left.elts[0], v_.right.value
+        if k_ is not None and n_ == len(st.targets[0].elts):
+          st.value = ast.Tuple(elts=[ast.Constant(value=k_.value) for _ in range(n_)], ctx=ast.Load())
+          ast.copy_location(st.value, v_)
+          ast.fix_missing_locations(st.value)
+      if isinstance(st, ast.Assign) and len(st.targets) > 1 and isinstance(st.value, ast.Constant):
+        for t in st.targets:
+          out.append(ast.Assign(targets=[t], value=ast.Constant(value=st.value.value), lineno=st.lineno, col_offset=st.col_offset))
+        changed[0] = True
+        continue
       if isinstance(st, ast.Assign) and len(st.targets) == 1 and isinstance(st.targets[0], (ast.Tuple, ast.List)) \
           and isinstance(st.value, (ast.Tuple, ast.List)) and len(st.targets[0].elts) == len(st.value.elts) \
           and not any(isinstance(x, ast.Starred) for x in list(st.targets[0].elts) + list(st.value.elts)):
